@@ -74,6 +74,16 @@ class Act:
     listener_fault_at: int = 0
 
 
+def _first(*thunks: Callable[[], Any]) -> Any:
+    """First thunk result that is not None (never the truth value of an IR object: an op
+    class may define __len__ / __bool__)."""
+    for t in thunks:
+        x = t()
+        if x is not None:
+            return x
+    return None
+
+
 class G:
     """Generation context for one step."""
 
@@ -266,7 +276,7 @@ def _new_op_for(g: G, b: Block) -> Operation | None:
 def _add_op(g: G) -> Act | None:
     # bias to empty blocks: a detached op with stale links shows there
     b = g.block(lambda b: b._first_op is None) if g.s.flag(1, 3) else None
-    b = b or g.block()
+    b = b if b is not None else g.block()
     if b is None:
         return None
     o = _new_op_for(g, b)
@@ -295,7 +305,7 @@ def _existing(g: G, b: Block) -> Operation | None:
 
 @gen("Block.insert_op_before", "blocklist", 5)
 def _ins_before(g: G) -> Act | None:
-    b = g.block(lambda b: b._first_op is not None) or g.block()
+    b = _first(lambda: g.block(lambda b: b._first_op is not None), g.block)
     if b is None:
         return None
     ex = _existing(g, b)
@@ -307,7 +317,7 @@ def _ins_before(g: G) -> Act | None:
 
 @gen("Block.insert_op_after", "blocklist", 5)
 def _ins_after(g: G) -> Act | None:
-    b = g.block(lambda b: b._first_op is not None) or g.block()
+    b = _first(lambda: g.block(lambda b: b._first_op is not None), g.block)
     if b is None:
         return None
     ex = _existing(g, b)
@@ -319,7 +329,7 @@ def _ins_after(g: G) -> Act | None:
 
 @gen("Block.insert_ops_before", "blocklist", 2)
 def _ins_ops_before(g: G) -> Act | None:
-    b = g.block(lambda b: b._first_op is not None) or g.block()
+    b = _first(lambda: g.block(lambda b: b._first_op is not None), g.block)
     if b is None:
         return None
     ex = _existing(g, b)
@@ -332,7 +342,7 @@ def _ins_ops_before(g: G) -> Act | None:
 
 @gen("Block.insert_ops_after", "blocklist", 2)
 def _ins_ops_after(g: G) -> Act | None:
-    b = g.block(lambda b: b._first_op is not None) or g.block()
+    b = _first(lambda: g.block(lambda b: b._first_op is not None), g.block)
     if b is None:
         return None
     ex = _existing(g, b)
@@ -345,7 +355,7 @@ def _ins_ops_after(g: G) -> Act | None:
 
 @gen("Block.detach_op", "blocklist", 5)
 def _detach_op(g: G) -> Act | None:
-    b = g.block(lambda b: b._first_op is not None) or g.block()
+    b = _first(lambda: g.block(lambda b: b._first_op is not None), g.block)
     if b is None:
         return None
     o = _existing(g, b)
@@ -368,7 +378,7 @@ def _unused(o: Operation) -> bool:
 
 @gen("Block.erase_op", "erase", 3)
 def _erase_op(g: G) -> Act | None:
-    b = g.block(lambda b: b._first_op is not None) or g.block()
+    b = _first(lambda: g.block(lambda b: b._first_op is not None), g.block)
     if b is None:
         return None
     safe = not g.s.flag(1, 3)
@@ -589,7 +599,7 @@ def _one_or_list(g: G, blocks: list[Block]) -> tuple[Any, str]:
 @gen("Region.add_block", "regionlist", 5)
 def _add_block(g: G) -> Act | None:
     r = g.region(lambda r: r._first_block is None) if g.s.flag(1, 3) else None
-    r = r or g.region()
+    r = r if r is not None else g.region()
     if r is None:
         return None
     blocks = _new_blocks_for(g, r, 3)
@@ -605,7 +615,7 @@ def _target(g: G, r: Region) -> Block | None:
 
 @gen("Region.insert_block_before", "regionlist", 5)
 def _ins_block_before(g: G) -> Act | None:
-    r = g.region(lambda r: r._first_block is not None) or g.region()
+    r = _first(lambda: g.region(lambda r: r._first_block is not None), g.region)
     if r is None:
         return None
     t = _target(g, r)
@@ -618,7 +628,7 @@ def _ins_block_before(g: G) -> Act | None:
 
 @gen("Region.insert_block_after", "regionlist", 4)
 def _ins_block_after(g: G) -> Act | None:
-    r = g.region(lambda r: r._first_block is not None) or g.region()
+    r = _first(lambda: g.region(lambda r: r._first_block is not None), g.region)
     if r is None:
         return None
     # insert_block_after does not check that target is in r: documented use only
@@ -1317,7 +1327,7 @@ def _clone_op(g: G) -> Act | None:
     if len(g.u.ops) >= 2 * g.max_ops:
         return None
     o = g.op(lambda o: len(o.regions) > 0) if g.s.flag(1, 2) else None
-    o = o or g.op()
+    o = o if o is not None else g.op()
     if o is None or not _clonable(g, o):
         return None
     vm, bm, d = _mappers(g, o)
@@ -1348,7 +1358,7 @@ def _clone_op_wo(g: G) -> Act | None:
 def _clone_region(g: G) -> Act | None:
     if len(g.u.ops) >= 2 * g.max_ops:
         return None
-    r = g.region(lambda r: r._first_block is not None) or g.region()
+    r = _first(lambda: g.region(lambda r: r._first_block is not None), g.region)
     if r is None or not _clonable(g, r):
         return None
     spec = CloneSpec("region.clone", r)
@@ -1359,7 +1369,7 @@ def _clone_region(g: G) -> Act | None:
 def _clone_into(g: G) -> Act | None:
     if len(g.u.ops) >= 2 * g.max_ops:
         return None
-    r = g.region(lambda r: r._first_block is not None) or g.region()
+    r = _first(lambda: g.region(lambda r: r._first_block is not None), g.region)
     if r is None or not _clonable(g, r):
         return None
     # valid: dest is not the source and not nested in it
@@ -1572,6 +1582,50 @@ def _builder_insert(g: G) -> Act | None:
 
     lf = f" [listener raises at notification {g.fault_at}]" if g.fault_at else ""
     return Act("Builder.insert", run, [*objs, *ops], f"Builder({d}).{'insert_op' if alias else 'insert'}({od}, {d2}){lf}", listener_fault_at=g.fault_at)
+
+
+@gen("kept Builder / InsertPoint", "rewriter", 3)
+def _kept_builder(g: G) -> Act | None:
+    """A Builder (or a bare InsertPoint) that the caller created earlier and *kept* while the
+    IR was edited by other calls: its insertion point may be stale by now (anchor moved to
+    another block, detached, block split).  The shipped code checks the anchor again when
+    it inserts, so a stale point makes the call raise; inserting through a point that is
+    still valid must work as usual."""
+    from xdsl.builder import BuilderListener
+
+    if not g.u.builders or g.s.flag(1, 3):
+        if len(g.u.builders) >= 3:
+            g.u.builders.pop(0)
+        ipt = _insert_point(g)
+        if ipt is None:
+            return None
+        mk, objs, d = ipt
+        bare = g.s.flag(1, 3)
+
+        def create() -> Any:
+            ip = mk()
+            g.u.builders.append(ip if bare else Builder(ip))
+            return None
+
+        return Act("kept Builder / InsertPoint", create, list(objs), f"keep {'the insertion point' if bare else 'a Builder at'} {d}")
+    i = g.s.choice(len(g.u.builders))
+    kept = g.u.builders[i]
+    ip = kept if isinstance(kept, InsertPoint) else kept.insertion_point
+    anchor = ip.insert_before
+    if g.u.is_dead(ip.block) or (anchor is not None and g.u.is_dead(anchor)):
+        del g.u.builders[i]  # never use destroyed objects
+        return None
+    dest = ip.block
+    if g.faulty:
+        ops = g.some(lambda: g.op(), 3, distinct=False)
+    else:
+        ops = g.some(lambda: g.op(lambda o: o.parent is None and not is_ancestor_or_self(o, dest)), 3)
+    arg: Any = tuple(ops) if g.s.flag(1, 3) else ops
+    where = f"before {g.n(anchor)}" if anchor is not None else f"at the end of {g.n(dest)}"
+    stale = anchor is not None and anchor.parent is not dest
+    if isinstance(kept, InsertPoint):
+        return Act("kept Builder / InsertPoint", lambda: Rewriter.insert_op(arg, kept), [dest, *([anchor] if anchor is not None else []), *ops], f"Rewriter.insert_op({g.ns(ops)}, <kept insertion point {where}{', stale' if stale else ''}>)")
+    return Act("kept Builder / InsertPoint", lambda: kept.insert(arg), [dest, *([anchor] if anchor is not None else []), *ops], f"<kept Builder {where}{', stale' if stale else ''}>.insert({g.ns(ops)})")
 
 
 @gen("ImplicitBuilder", "create", 2)
